@@ -34,9 +34,9 @@ type ReusableWorkflowMetadataInput struct {
 // UnmarshalYAML implements yaml.Unmarshaler.
 func (input *ReusableWorkflowMetadataInput) UnmarshalYAML(n *yaml.Node) error {
 	type metadata struct {
-		Required bool    `yaml:"required"`
-		Default  *string `yaml:"default"`
-		Type     string  `yaml:"type"`
+		Required bool      `yaml:"required"`
+		Default  yaml.Node `yaml:"default"`
+		Type     string    `yaml:"type"`
 	}
 
 	var md metadata
@@ -44,7 +44,11 @@ func (input *ReusableWorkflowMetadataInput) UnmarshalYAML(n *yaml.Node) error {
 		return err
 	}
 
-	input.Required = md.Required && md.Default == nil
+	// Note: The input has a default value when "default" key exists even if the value is null
+	// ("default: null" or "default:"). This must be the same as how WriteWorkflowCallEvent builds
+	// the metadata from the syntax tree. Otherwise the result of checking a workflow call depends
+	// on which of them registered the metadata to the cache first.
+	input.Required = md.Required && md.Default.Kind == 0
 	switch md.Type {
 	case "boolean":
 		input.Type = BoolType{}
